@@ -605,7 +605,7 @@ class Session:
             if c == "undecided":
                 if not o.name.endswith("__split"):
                     self.excluded.append({"ob": o.name, "config": config, "fn": o.fn, "desc": o.desc[:200],
-                                          "why": "not decided by the installed solvers within the thorough timeout (lib/costs.json); not claimed"})
+                                          "why": "not decided on the unchanged tree (solver timeout in the thorough tier, or body larger than the uninterpreted-function tables): recorded in lib/costs.json; not claimed"})
                 continue
             if isinstance(c, (int, float)):
                 o.cost = max(1.0, c)
